@@ -776,7 +776,8 @@ def run(chk: Check, args):
     chk.cov['rule'] = ('scenario = (connection kind, frame sequence, segmentation, EOF/silence/local close, wanted '
                        'decode outcome per Hostile slot) projected from TLC behaviours of Framing, concretised with '
                        'generated bytes (valid messages of every receivable class, truncations, bit flips, 0xFFFFFFFF '
-                       'counts, bad text, corrupt zlib, unknown codes, wrong-kind frames, lying prefixes), plus '
+                       'counts, bad text, corrupt zlib, unknown codes, wrong-kind frames, lying prefixes), plus 70 KiB / 200 KiB '
+                       'frames (valid and hostile) between sentinels in MSS-sized segments, plus '
                        'free-form longer streams; each is fed to a real logged-in SoulSeekClient in virtual time; '
                        'distinct = distinct (scenario bytes, stimuli); non-trivial = at least one frame was fed whole')
     r = tlc.model_check(SPEC, 'MC_quick.cfg',
@@ -830,6 +831,22 @@ def run(chk: Check, args):
         for i in range(60 if thorough else 6):
             scenarios.append(session_scenario(conc, fam, 60 if fam == 'server' else 24, preamble=i % 2 == 0))
             metas.append(dict(source='session'))
+    # big frames (beyond any plausible chunking threshold) between sentinels, in MSS-sized and odd segments
+    combos = []
+    for fam in ('server', 'peer', 'dist'):
+        for size in LARGE_SIZES:
+            for how in ('valid', 'hostile'):
+                combos.append((fam, size, how, False, 'accepted'))
+    for size in LARGE_SIZES:
+        for how in ('valid', 'hostile'):
+            combos.append(('peer', size, how, True, 'accepted'))          # obfuscated
+    combos.append(('peer', LARGE_SIZES[0], 'valid', False, 'outgoing'))
+    combos.append(('dist', LARGE_SIZES[0], 'hostile', False, 'outgoing'))
+    for rep in range(4 if thorough else 1):
+        for j, (fam, size, how, obf, variant) in enumerate(combos):
+            seg = (MSS, 9000, 65536, 4096)[(j + rep) % 4] if thorough else (MSS if j % 3 else 9000)
+            scenarios.append(large_scenario(conc, fam, size, how, seg, obf=obf, variant=variant, preamble=bool(rep % 2)))
+            metas.append(dict(source='large-frame', size=size, how=how, seg=seg))
     chk.log(f'{len(scenarios)} scenarios built; hostile categories: {dict(sorted(conc.cat_counts.items()))}')
 
     tmp = tempfile.mkdtemp(prefix='c02-')
@@ -934,6 +951,91 @@ def handler_scenario(conc: Concretiser, fam, classes, preamble):
     add(sentinel(M, fam, sid).serialize()[4:], 'S', sid, 'sentinel', '')
     return dict(kind=fam, obf=obf, variant='accepted', preamble=preamble, raiser=False, frames=frames,
                 stimuli=[['feed', f['h'] + f['a']] for f in frames])
+
+
+LARGE_SIZES = (70 * 1024, 200 * 1024)
+MSS = 1460
+
+
+def large_body(conc: Concretiser, fam, size, how):
+    """A frame body of about `size` bytes for a reader of family `fam` -> (body, cat, class name).
+    how = 'valid': a valid message that is simply big (a user info reply with a picture, a shares
+    reply, a room list, a long admin message, a distributed search with a long query);
+    'hostile': an undecodable body of that size (unknown code, a big valid frame cut short or with a
+    0xFFFFFFFF count)."""
+    M, r = conc.M, conc.rng
+    if how == 'valid':
+        if fam == 'peer':
+            if r.random() < 0.7:
+                m = M.PeerUserInfoReply.Request('big', True, bytes(r.getrandbits(8) for _ in range(64)) * (size // 64),
+                                                upload_slots=3, queue_size=0, has_slots_free=True)
+            else:
+                # zlib output must itself be large: hard to compress names
+                files = [M.FileData(1, '%032x.mp3' % r.getrandbits(128), r.getrandbits(30), 'mp3', [])
+                         for _ in range(size // 28)]
+                m = M.PeerSharesReply.Request([M.DirectoryData('music', files)])
+        elif fam == 'server':
+            if r.random() < 0.5:
+                m = M.AdminMessage.Response('A' * size)
+            else:
+                n = size // 16
+                m = M.PrivilegedUsers.Response(['user%08d' % i for i in range(n)])
+        else:
+            m = M.DistributedSearchRequest.Request(0x31, 'nobody', r.getrandbits(20), 'q' * size)
+        return m.serialize()[4:], 'large_valid', type(m).__qualname__
+    h = conc.host[fam]
+    kind = r.choice(['unknown_code', 'truncate', 'count', 'random'])
+    if kind in ('truncate', 'count'):
+        body, _, name = large_body(conc, fam, size, 'valid')
+        if kind == 'truncate' or name in ('PeerSharesReply.Request',):
+            return body[:len(body) - r.randrange(1, 5000)], 'large_truncate', name
+        w = h.code_width
+        return body[:w] + b'\xff\xff\xff\xff' + body[w + 4:], 'large_count', name
+    if kind == 'unknown_code':
+        for _ in range(100):
+            code = r.getrandbits(32) if h.code_width == 4 else r.getrandbits(8)
+            if code not in h.codes:
+                break
+        cb = L.U32.pack(code) if h.code_width == 4 else bytes([code])
+        return cb + bytes(r.getrandbits(8) for _ in range(256)) * (size // 256), 'large_unknown_code', ''
+    return bytes(r.getrandbits(8) for _ in range(256)) * (size // 256), 'large_random', ''
+
+
+def large_scenario(conc: Concretiser, fam, size, how, seg, obf=False, variant='accepted', preamble=False):
+    """sentinel, big frame, sentinel, small hostile, sentinel - delivered in `seg`-byte TCP segments
+    (the reader is woken after every segment, so reads of a big body come back short).  Whatever
+    way an implementation reads big bodies, what follows them must still be delivered in order."""
+    M, r = conc.M, conc.rng
+    frames = []
+
+    def add(body, k, sid, cat, cls):
+        w = L.wire(L.frame(body), obf, bytes(r.getrandbits(8) for _ in range(4)))
+        frames.append(dict(k=k, id=sid, cat=cat, cls=cls, obf=obf, hex=w.hex(), h=8 if obf else 4, b=len(body), a=len(body)))
+
+    def sent():
+        sid = conc._next_sid()
+        add(sentinel(M, fam, sid).serialize()[4:], 'S', sid, 'sentinel', '')
+
+    sent()
+    body, cat, name = large_body(conc, fam, size, how)
+    add(body, 'H', 0, cat, name)
+    conc.cat_counts[cat] = conc.cat_counts.get(cat, 0) + 1
+    sent()
+    body, cat, name = conc.host[fam].body(minlen=2)
+    add(body, 'H', 0, cat, name)
+    sent()
+    total = sum(f['h'] + f['a'] for f in frames)
+    stimuli, pos = [], 0
+    first = frames[0]['h'] + frames[0]['a']
+    if r.random() < 0.5:                     # the first sentinel on its own, or inside the first segment
+        stimuli.append(['feed', first])
+        pos = first
+    while pos < total:
+        nb = min(seg, total - pos)
+        stimuli.append(['feed', nb])
+        pos += nb
+    return dict(kind=fam, obf=obf, variant=variant, preamble=preamble, raiser=False, logging=False, large=True,
+                frames=frames, stimuli=stimuli)
 
 
 def session_scenario(conc: Concretiser, fam, n, preamble=True):
